@@ -137,6 +137,8 @@ def run(ctx):
     others = [s for s in subsets if 1 < len(s) < len(mc.MENU)] + [frozenset()]
     for j, S in enumerate(others):
         for optkey in OPTKEYS:
+            if not q and optkey.endswith("unphased") and 2 < len(S) < len(mc.MENU) - 1 and j % 8:
+                continue  # thorough: the unphased variant on the small / large subsets and every 8th other one
             targets = small if not q else [small[j % len(small)]]
             for inp in targets:
                 if (inp.name, optkey, S) not in done:
